@@ -24,14 +24,18 @@ PROP = {'pkg': B,
               'real kernel tree vs. an independent line scanner',
  'level_text': 'Generated-input search: every generated tree is built several times with the real FindRedirects; the '
                'table must match the annotations the generator put into the tree (and nothing else) and be identical, '
-               'in order, across builds. Exploration, not proof: the space of source trees is infinite, the generator '
+               'in order, across builds; the real CompleteRedirects then writes the table into a synthetic ELF image that must '
+               'carry exactly those entries and be byte-identical across builds. Exploration, not proof: the space of source trees is infinite, the generator '
                'aims at the comment positions that go/parser does and does not attach to a function as its doc.',
  'level_note': 'The model relies on the generator knowing which comment lines form a function\'s doc comment; this is '
                'cross-checked against go/parser (FuncDecl.Doc) for every generated file as a harness self-check '
                '(VERIF-HARNESS, never a violation). Order non-determinism is detected statistically: a reordering that '
                'shows in 1 of 8 builds is missed by 5 builds of one tree with probability ~0.5, by the whole run '
-               'practically never. CompleteRedirects (writing the table into the ELF image in slice order) is not '
-               'exercised.',
+               'practically never. The image stage runs the real CompleteRedirects on a harness-built ELF64 file '
+               '(sentinel-filled .goredirectstbl, symbol table with every source/destination symbol plus look-alike '
+               'decoys): the written table is compared as a multiset of address pairs, every other byte of the file '
+               'must be unchanged, and two builds must give byte-identical images. The real linker output is not '
+               'available offline, so section flags, symbol binding and padding are the harness\'s choice.',
  'assumptions': ['the tree is scanned with the kernel root as working directory; the root package is '
                  'github.com/ProjectSerenity/firefly/kernel and a function in <dir> is named <that>/<dir>.<Func>',
                  'an annotation is a doc-comment line `//go:redirect-from`, 1+ blanks/tabs, a symbol without blanks, '
